@@ -158,6 +158,52 @@ MUTANTS = [
             Regex::new(r"^[AKQJT98765432]{2}[so](:(0(\\.[0-9]+)?|1(\\.0+)?))?$").unwrap();""", """        static SINGLE_RANK: std::sync::OnceLock<Regex> = std::sync::OnceLock::new();
         let single_rank_pair_regex = SINGLE_RANK
             .get_or_init(|| Regex::new(r"^[AKQJT98765432]{2}[so](:(0(\\.[0-9]+)?|1(\\.0+)?))?$").unwrap());"""), benign=True),
+    M("benign-c03-ordering-match", ["C03", "C11"], (SD, """            if power_index <= strongest_index {
+                if power_index < strongest_index {
+                    strongest_index = power_index;
+                    winner_indexes.clear();
+                }
+
+                winner_indexes.insert(i);
+            }
+""", """            match power_index.cmp(&strongest_index) {
+                std::cmp::Ordering::Less => {
+                    strongest_index = power_index;
+                    winner_indexes.clear();
+                    winner_indexes.insert(i);
+                }
+                std::cmp::Ordering::Equal => {
+                    winner_indexes.insert(i);
+                }
+                std::cmp::Ordering::Greater => {}
+            }
+"""), benign=True),
+    M("c03-ordering-match-no-equal", ["C03"], (SD, """            if power_index <= strongest_index {
+                if power_index < strongest_index {
+                    strongest_index = power_index;
+                    winner_indexes.clear();
+                }
+
+                winner_indexes.insert(i);
+            }
+""", """            match power_index.cmp(&strongest_index) {
+                std::cmp::Ordering::Less => {
+                    strongest_index = power_index;
+                    winner_indexes.clear();
+                    winner_indexes.insert(i);
+                }
+                _ => {}
+            }
+""")),
+    M("c06-epsilon-suffix", ["C06"], (TK, "        if self.probability == 1.0 {\n            res", "        if (self.probability - 1.0).abs() < f32::EPSILON {\n            res")),
+    M("c06-ofsuit-letter", ["C06"], (RP, 'RankPair::Ofsuit(high, kicker) => write!(f, "{}{}o", high, kicker),', 'RankPair::Ofsuit(high, kicker) => write!(f, "{}{}x", high, kicker),')),
+    M("c06-span-args-swapped", ["C06"], (TK, 'RankPair::Suited(high, kicker) => write!(f, "{}{}s-{}{}s", high, kicker, high, end),', 'RankPair::Suited(high, kicker) => write!(f, "{}{}s-{}{}s", high, end, high, kicker),')),
+    M("c06-precision", ["C06"], (TK, 'res.and(write!(f, ":{}", self.probability))', 'res.and(write!(f, ":{:.2}", self.probability))')),
+    M("c06-plus-moved", ["C06"], (TK, 'write!(f, "{}+", rank_pair)', 'write!(f, "+{}", rank_pair)')),
+    M("c06-weight-separator", ["C06"], (TK, 'res.and(write!(f, ":{}", self.probability))', 'res.and(write!(f, "@{}", self.probability))')),
+    M("c06-parser-kind-letter", ["C06", "C05"], (TK, 'Regex::new(r"^[AKQJT98765432]{2}[so]\\+(:', 'Regex::new(r"^[AKQJT98765432]{2}[su]\\+(:')),
+    M("c06-range-separator", ["C06"], (HRS, 'res = res.and(write!(f, ",{}", token));', 'res = res.and(write!(f, ";{}", token));')),
+    M("benign-c06-comma-space", ["C06"], (HRS, 'res = res.and(write!(f, ",{}", token));', 'res = res.and(write!(f, ", {}", token));'), benign=True),
     M("c08-recursion", ["C08"], (FE, """        loop {
             if let Some(showdown) = self.next_deal()? {
                 return Some(showdown);
@@ -172,6 +218,13 @@ MUTANTS = [
     M("c02-insert-removed", ["C02"], (FE, "            self.current_used_cards.insert(entry.0[1]);\n", "")),
     M("c02-insert-conditional", ["C02"], (FE, "            self.current_used_cards.insert(entry.0[1]);\n", "            if player_index > 0 { self.current_used_cards.insert(entry.0[1]); }\n")),
     M("c02-odometer-plus2", ["C02"], (FE, "if self.current_player_indexes[ri] + 1 < self.player_entries[ri].len() {", "if self.current_player_indexes[ri] + 2 < self.player_entries[ri].len() {")),
+    M("c02-odometer-forward-scan", ["C02"], (FE, "            let ri = self.current_player_indexes.len() - i - 1;", "            let ri = i;")),
+    M("c02-odometer-no-break", ["C02"], (FE, "                player_index_to_increment = Some(ri);\n\n                break;", "                player_index_to_increment = Some(ri);")),
+    M("c02-odometer-reset-range", ["C02"], (FE, "for i in (player_index_to_increment + 1)..self.current_player_indexes.len() {", "for i in (player_index_to_increment + 2)..self.current_player_indexes.len() {")),
+    M("benign-c02-rev-scan", ["C02", "C08"], (FE, """        for i in 0..self.current_player_indexes.len() {
+            let ri = self.current_player_indexes.len() - i - 1;
+""", """        for ri in (0..self.current_player_indexes.len()).rev() {
+"""), benign=True),
     M("c02-prob-sum", ["C02"], (FE, "probability *= entry.1;", "probability += entry.1;")),
     M("c02-prob-first-only", ["C02"], (FE, "probability *= entry.1;", "if player_index == 0 { probability *= entry.1; }")),
     M("c02-board-swap", ["C02"], (FE, "self.current_board[3] = Some(turn);\n        self.current_board[4] = Some(river);", "self.current_board[3] = Some(river);\n        self.current_board[4] = Some(turn);")),
